@@ -47,6 +47,29 @@ def mkMeta (res : Bytes) (nas : Nat) (cid : Bytes) (flag : Bool) (csec dcid dcse
   { resource := res, nAuthServers := nas, clientId := cid, useIdToken := flag, clientSecret := csec,
     dcClientId := dcid, dcClientSecret := dcsec }
 
+
+/-- `emits`: groups of (murl res nas cid flag csec dcid dcsec). -/
+def parseCalls : List String → Option (List (Option Bytes × Meta))
+  | [] => some []
+  | murl :: res :: nas :: cid :: flag :: csec :: dcid :: dcsec :: rest =>
+    match parseHexArg res, nas.toNat?, parseHexArg cid, parseBool? flag, parseHexArg csec,
+        parseHexArg dcid, parseHexArg dcsec, parseCalls rest with
+    | some r, some k, some a, some f, some b, some c, some d, some more =>
+      let m := mkMeta r k a f b c d
+      if murl = "-" then some ((none, m) :: more)
+      else match parseHexArg murl with
+        | some u => some ((some u, m) :: more)
+        | none => none
+    | _, _, _, _, _, _, _, _ => none
+  | _ => none
+
+def showStep (c : Option Bytes × Meta) : String :=
+  match validate c.2 with
+  | some e => showVErr e
+  | none => match c.1 with
+    | none => "err:resource-url"
+    | some _ => "ok"
+
 def step (_ : Unit) (ws : List String) : Unit × String :=
   match ws with
   | ["hdr", h] =>
@@ -85,6 +108,16 @@ def step (_ : Unit) (ws : List String) : Unit × String :=
           | some u => ((), s!"h {showChallenge u m} p {showParsed (build u m)}")
           | none => ((), "bad-op")
     | _, _, _, _, _, _, _ => ((), "bad-op")
+  | "emits" :: k :: rest =>
+    match k.toNat?, parseCalls rest with
+    | some n, some calls =>
+      if calls.length ≠ n then ((), "bad-op")
+      else
+        let steps := ",".intercalate (calls.map showStep)
+        match configure calls with
+        | none => ((), s!"steps={steps} none")
+        | some c => ((), s!"steps={steps} h {showChallenge c.url c.md} p {showParsed (build c.url c.md)}")
+    | _, _ => ((), "bad-op")
   | _ => ((), "bad-op")
 
 def drive : IO Unit := driveLoop () step
